@@ -60,6 +60,8 @@ class ScriptedSource(ScheduleSource):
         self.list_latency = 0.0
         self.cancel: set = set()
         self.hooks: List[Any] = []                    # (instant, hook, schedule id)
+        self.live_list = False
+        self._live: List[Any] = []
 
     async def add_schedule(self, schedule: ScheduledTask) -> None:
         self.added[schedule.schedule_id] = schedule
@@ -103,12 +105,18 @@ class ScriptedSource(ScheduleSource):
         if failed:
             raise RuntimeError("source down")
         by = {e["id"]: e for e in self.entries}
+        if self.live_list:
+            # a source that hands out its own internal list (not a copy) and edits it in place when a one-shot was sent
+            self._live[:] = [self._task(by[i]) for i in listed]
+            return self._live
         return [self._task(by[i]) for i in listed]
 
     def post_send(self, task: ScheduledTask) -> None:
         self.hooks.append((self.now_us(), "post_send", task.schedule_id))
         if task.cron is None:
             self.sent.add(task.schedule_id)
+            if self.live_list:
+                self._live[:] = [t for t in self._live if t.schedule_id != task.schedule_id]
 
 
 class RecLabelSource(LabelScheduleSource):
@@ -182,6 +190,7 @@ def run_sched(case: Dict[str, Any]) -> Dict[str, Any]:
                 src = ScriptedSource(f"s{si}", s["entries"], set(s.get("fail_polls", ())), now_us, base_us)
                 src.list_latency = float(s.get("list_latency", 0.0))
                 src.cancel = set(s.get("cancel", ()))
+                src.live_list = bool(s.get("live_list"))
                 srcs.append(src)
         sched = TaskiqScheduler(b, srcs)
         end_s = ((base_us // MIN_US + case["horizon_min"]) * MIN_US + 30 * 10**6 - base_us) / 1e6
